@@ -131,6 +131,8 @@ pub fn gen(tier: &str, r: &mut Rng) -> Vec<String> {
     for t in [2usize, 4, 8, 16] {
         out.push(format!("c16 rounds {} {} {}", t, heavy.unwrap_or(budget(tier, 150, 3000)), *r.pick(&[3usize, 70, 130])));
     }
+    // clones taken while other threads create atoms: the identities a clone gets are then not consecutive
+    for t in [2usize, 6] { out.push(format!("c16 cloneload {} {}", t, budget(tier, 60, 600))); }
     out
 }
 
@@ -227,6 +229,29 @@ pub fn exec(case: &str) -> Exec {
                     break;
                 }
             }
+        }
+        "cloneload" => {
+            let n = t.usize().unwrap();
+            let reps = t.usize().unwrap();
+            ex.tags.push(format!("cloneload:{n}"));
+            ex.req = "-".into();
+            ex.resp = "-".into();
+            let text = "ATOM      1  SG  CYS A   1       1.000   2.000   3.000  1.00 10.00           S  \nATOM      2  CA  CYS A   1       2.000   2.000   3.000  1.00 10.00           C  \nATOM      3  SG  CYS A   5       1.000   2.000   5.000  1.00 10.00           S  \nATOM      4  SG  CYS B   7       9.000   2.000   3.000  1.00 10.00           S  \nATOM      5  SG  CYS B   9       9.000   2.000   5.000  1.00 10.00           S  \nSSBOND   1 CYS A    1    CYS A    5\nSSBOND   2 CYS B    7    CYS B    9\nEND\n";
+            let pdb = match ReadOptions::default().set_format(Format::Pdb).set_level(StrictnessLevel::Loose).read_raw(std::io::BufReader::new(text.as_bytes())) { Ok((p, _)) => p, Err(_) => { ex.failures.push(Failure::new("harness-could-not-read-its-own-text", "")); return ex; } };
+            let view = |p: &PDB| -> Result<Vec<(usize, usize)>, String> { guarded(|| { let ids: Vec<usize> = p.atoms().map(|a| a.serial_number()).collect(); let _ = ids; p.bonds().map(|(a, b, _)| (a.serial_number(), b.serial_number())).collect::<Vec<_>>() }) };
+            let want = view(&pdb);
+            let stop = std::sync::Arc::new(std::sync::atomic::AtomicBool::new(false));
+            let workers: Vec<std::thread::JoinHandle<()>> = (0..n).map(|_| { let stop = stop.clone(); std::thread::spawn(move || { while !stop.load(std::sync::atomic::Ordering::Relaxed) { let a = Atom::new(false, 1, "x", "O", 0.0, 0.0, 0.0, 1.0, 0.0, "O", 0).unwrap(); let _b = a.clone(); } }) }).collect();
+            for _ in 0..reps {
+                let c = pdb.clone();
+                let got = view(&c);
+                if got != want || c != pdb {
+                    ex.failures.push(Failure::new("clone-under-concurrent-atom-creation-differs", format!("{:?} vs {:?}", got, want)).feat("threads", n));
+                    break;
+                }
+            }
+            stop.store(true, std::sync::atomic::Ordering::Relaxed);
+            for w in workers { let _ = w.join(); }
         }
         "copies" => {
             let kind = t.next().unwrap().to_string();
